@@ -246,9 +246,12 @@ DoResize(s, l0, c0) ==
   LET lnew == IF l0 < 0 THEN s.L ELSE l0
       cnew == IF c0 < 0 THEN s.C ELSE c0 IN
   IF lnew = s.L /\ cnew = s.C THEN s
-  ELSE [s EXCEPT !.g = ResizeGrid(s, lnew, cnew), !.L = lnew, !.C = cnew, !.mar = <<>>,
+  ELSE \* (when lines are dropped the implementation saves and restores the cursor around the deletion,
+       \*  which takes a pending-wrap cursor back to the last column of the OLD width first)
+       LET x0 == IF lnew < s.L THEN Min2(s.x, s.C - 1) ELSE s.x IN
+       [s EXCEPT !.g = ResizeGrid(s, lnew, cnew), !.L = lnew, !.C = cnew, !.mar = <<>>,
                  !.dirty = 0..(lnew - 1),
-                 !.x = Min2(s.x, cnew - 1), !.y = Min2(s.y, lnew - 1)]
+                 !.x = Min2(x0, cnew - 1), !.y = Min2(s.y, lnew - 1)]
 
 ShiftModes(ps, pr) == { IF pr THEN 32 * ps[i] ELSE ps[i] : i \in 1..Len(ps) }
 SetReverse(s, on) ==
